@@ -792,6 +792,8 @@ class Engine:
         lm = self.db.lemmas.get(c.name)
         if lm is None: raise E2Error('unknown lemma %s' % c.name)
         self.lemmas_used.add(c.name)
+        if getattr(lm, 'is_axiom', False):
+            self.notes.append('definitional axiom %s used (well-definedness: %s)' % (c.name, ' '.join(lm.options.get('justified_by', ['UNJUSTIFIED']))))
         args = [self.sv(a, st, bound) for a in c.args]
         if len(args) != len(lm.params): raise E2Error('lemma %s arity' % c.name)
         s2 = st.clone(); s2.env = {}; s2.scope = None; s2.ghost = {}
@@ -1235,6 +1237,19 @@ class Verifier(Engine):
 
     def exec_stmt(self, s, st):
         k = s.k
+        if k == 'decl' and s.init is not None and s.init.k == 'cond' and s.t in ('double',) + INTS and self.cur is not None and not self.cur.options.get('no_cond_split'):
+            # v = c ? a : b  is executed as an if statement (keeps ite terms out of the nonlinear queries)
+            self.vartypes[s.name] = s.t
+            c = self.ev(s.init.c, st)
+            out = []
+            for cond, e in ((c, s.init.a), (z3.Not(c), s.init.b)):
+                if self.feasible(st, cond):
+                    b = st.clone(); b.assume(cond)
+                    v = self.ev(e, b)
+                    if s.t == 'double': v = self.to_real(v)
+                    b.env[s.name] = v
+                    out.append((b, 'normal', None))
+            return out
         if k == 'decl':
             self.vartypes[s.name] = s.t
             if s.init is not None:
@@ -1630,6 +1645,7 @@ class Verifier(Engine):
 
     def verify_lemma(self, name):
         lm = self.db.lemmas[name]
+        if getattr(lm, 'is_axiom', False): raise E2Error('%s is an axiom, not a lemma' % name)
         self.prefix = 'E2:lemma:%s:' % name
         self.mode = 'accept'; self.cur = None
         st = State()
@@ -1664,19 +1680,28 @@ class Verifier(Engine):
         return {'lemma': name, 'obligations': len(lm.ensures)}
 
     # ------------------------------------------------------------ discharge
-    def discharge_all(self, verbose=False):
-        res = []
+    def discharge_all(self, verbose=False, nproc=None):
+        from . import par
+        import os
+        todo = [i for i, ob in enumerate(self.obligations) if ob.result is None]
+        def one(i):
+            ob = self.obligations[i]
+            if z3.is_true(z3.simplify(ob.goal)):
+                return {'verdict': 'proved', 'backend': 'simplify', 'seconds': 0.0, 'model': None, 'log': []}
+            return discharge(ob.hyps, ob.goal, budget=self.budget, skolems=ob.skolems)
+        if nproc is None:
+            nproc = int(os.environ.get('LPV_JOBS', '4'))
+        if len(todo) < 24 or nproc <= 1:
+            for i in todo: self.obligations[i].result = one(i)
+        else:
+            chunks = [todo[k::nproc] for k in range(nproc)]
+            res = par.pmap(lambda ch: [(i, one(i)) for i in ch], chunks, nproc)
+            for lst in res:
+                for i, r in lst: self.obligations[i].result = r
         for ob in self.obligations:
-            if ob.result is None:
-                g = ob.goal
-                if z3.is_true(z3.simplify(g)):
-                    ob.result = {'verdict': 'proved', 'backend': 'simplify', 'seconds': 0.0, 'model': None, 'log': []}
-                else:
-                    ob.result = discharge(ob.hyps, g, budget=self.budget, skolems=ob.skolems)
             if verbose and ob.result['verdict'] != 'proved':
                 sys.stderr.write('  %s %s: %s  [%s %.2fs]\n' % (ob.result['verdict'].upper(), ob.id, ob.text, ob.result['backend'], ob.result['seconds']))
-            res.append(ob)
-        return res
+        return list(self.obligations)
 
     def check_vacuity(self):
         """every precondition set must be satisfiable (unsat = vacuous contract)"""
